@@ -59,9 +59,23 @@ def make_factory(src):
     return ns["_make"]
 
 
+class Raised(Exception):
+    """zope.interface raised while the case's class statement was being executed (defining an
+    interface describes its methods): an observation, not a broken case."""
+
+    def __init__(self, func, exc):
+        Exception.__init__(self, func, exc)
+        self.func, self.exc = func, exc
+
+
 def instantiate(factory, table, via):
     keep = []
-    ns = factory(table, keep, Interface, ABCInterface, abc)
+    try:
+        ns = factory(table, keep, Interface, ABCInterface, abc)
+    except Exception as e:
+        if via in (3, 4) and keep and isinstance(keep[0], types.FunctionType):
+            raise Raised(keep[0], e)      # the def itself ran; building the interface failed
+        raise
     func = ns["f"] if via in (0, 2) else keep[0]
     assert isinstance(func, types.FunctionType)
     return ns, func
@@ -98,10 +112,14 @@ def one(case):
     objs = [eval(s, {}) for s in case["objs"]]
     via = case["via"]
     factory = make_factory(case["src"])
-    ns, func = instantiate(factory, objs, via)
+    raised = None
+    try:
+        ns, func = instantiate(factory, objs, via)
+    except Raised as r:
+        ns, func, raised = None, r.func, r.exc
     sib = case.get("sibling")
     first_exc = None
-    if sib:
+    if sib and raised is None:
         try:
             describe(via, func, ns)[0].getSignatureInfo()       # first description of the sequence
         except Exception as e:
@@ -109,7 +127,10 @@ def one(case):
         how = sib["how"]
         if how == "closure":
             r = sib["rot"] % len(objs)
-            ns, g = instantiate(factory, objs[r:] + objs[:r], via)
+            try:
+                ns, g = instantiate(factory, objs[r:] + objs[:r], via)
+            except Raised as r2:
+                ns, g, raised = None, r2.func, r2.exc
             assert g.__code__ is func.__code__ and g is not func
             func = g
         elif how == "functype":
@@ -138,6 +159,9 @@ def one(case):
     }
     if first_exc:
         out["first_exc"] = first_exc
+    if raised is not None:
+        out["exc"] = "raised:" + type(raised).__name__
+        return out
     try:
         m, target = describe(via, func, ns)
         try:
@@ -165,7 +189,7 @@ def one(case):
         out["sigstr"] = s
         out["tagged"] = [[t, oidx(objs, m.getTaggedValue(t))] for t in m.getTaggedValueTags()]
     except Exception as e:   # reported as data
-        out["exc"] = type(e).__name__
+        out["exc"] = "raised:" + type(e).__name__
     return out
 
 
